@@ -406,8 +406,14 @@ func (g *Gen) candidate(t *rapid.T, kind string, spent map[string]bool) *cand {
 			return nil
 		}
 		node := g.nodeKey(i)
-		if rapid.IntRange(0, 5).Draw(t, "altnode") == 0 {
+		switch rapid.IntRange(0, 7).Draw(t, "altnode") {
+		case 0:
 			node = g.nodeAlt(i)
+		case 1:
+			// the node key is the owner key of the next cast member (who may
+			// register later: owner key == somebody's node key is admitted
+			// before DPoSV2StartHeight)
+			node = g.owner((i + 1) % g.NProducers)
 		}
 		g.nick++
 		dep := common.Fixed64(rapid.SampledFrom([]int64{5000, 5000, 5500, 6000, 8000}).Draw(t, "deposit")) * ELA
@@ -459,9 +465,9 @@ func (g *Gen) candidate(t *rapid.T, kind string, spent map[string]bool) *cand {
 			return nil
 		}
 		p := g.producer(i)
-		node := g.nodeKey(i)
-		if string(p.NodePublicKey()) != string(node.PK) {
-			node = g.nodeAlt(i)
+		node := KeyByPK(p.NodePublicKey())
+		if node == nil {
+			return nil
 		}
 		return &cand{kind, k.ActivateProducerTx(node), fmt.Sprintf("p%d", i), fmt.Sprintf("activate(p%d)", i)}
 	case "vote":
